@@ -281,6 +281,19 @@ pub fn run_c17(cfg: &Cfg) -> Report {
             Shape::Seq(Box::new(Shape::Unit)),
             Shape::Seq(Box::new(Shape::UnitStruct("T4"))),
             Shape::Struct("T5", vec![("f0", Shape::Seq(Box::new(Shape::Tuple(vec![])))), ("f1", Shape::Seq(Box::new(Shape::Unit)))]),
+            Shape::Enum(
+                "Unit",
+                vec![
+                    VariantShape { name: "Kb", data: VData::Newtype(Box::new(Shape::U8)) },
+                    VariantShape { name: "KB", data: VData::Newtype(Box::new(Shape::U8)) },
+                    VariantShape { name: "kb", data: VData::Unit },
+                    VariantShape { name: "kB", data: VData::Struct(vec![("Len", Shape::U16), ("len", Shape::U16), ("LEN", Shape::Str)]) },
+                    VariantShape { name: "Mb", data: VData::Newtype(Box::new(Shape::Str)) },
+                    VariantShape { name: "MB", data: VData::Newtype(Box::new(Shape::U32)) },
+                ],
+            ),
+            Shape::Struct("Cased", vec![("Type", Shape::U8), ("TYPE", Shape::U16), ("type", Shape::Str), ("r#type", Shape::U32), ("r#", Shape::Bool)]),
+            Shape::Enum("Raw", vec![VariantShape { name: "r#Move", data: VData::Newtype(Box::new(Shape::U8)) }, VariantShape { name: "Move", data: VData::Newtype(Box::new(Shape::U16)) }, VariantShape { name: "a::Move", data: VData::Unit }]),
             Shape::Char,
             Shape::Tuple(vec![Shape::Char, Shape::Char]),
             Shape::I128,
@@ -392,8 +405,12 @@ fn near_miss(rng: &mut Rng, j: &Value) -> Value {
             return match j {
                 Value::Null => Value::from(5),
                 Value::Bool(_) => Value::String("x".into()),
-                Value::Number(_) => match rng.below(4) {
+                Value::Number(n) => match rng.below(7) {
                     0 => Value::String("1".into()),
+                    // numbers as decimal strings, incl. ones beyond what a JSON number can hold
+                    4 => Value::String(n.to_string()),
+                    5 => Value::String((*rng.pick(&["18446744073709551616", "-9223372036854775809", "340282366920938463463374607431768211455", "-170141183460469231731687303715884105728", "99999999999999999999", "340282366920938463463374607431768211456"])).into()),
+                    6 => Value::String(format!("{}", (rng.next() as u128) << rng.range(1, 63))),
                     1 => Value::from(1e300),
                     2 => Value::from(-1),
                     _ => Value::from(u64::MAX),
@@ -414,7 +431,19 @@ fn near_miss(rng: &mut Rng, j: &Value) -> Value {
                 }
                 Value::Object(o) => {
                     let mut o = o.clone();
-                    if o.is_empty() || rng.chance(1, 2) {
+                    if !o.is_empty() && rng.chance(1, 3) {
+                        // respell one key: raw-identifier prefix added / removed, letter case changed
+                        let keys: Vec<String> = o.keys().cloned().collect();
+                        let k0 = keys[rng.below(keys.len() as u64) as usize].clone();
+                        let v0 = o.remove(&k0).unwrap();
+                        let k1 = match rng.below(4) {
+                            0 => k0.strip_prefix("r#").map(|x| x.to_string()).unwrap_or_else(|| format!("r#{}", k0)),
+                            1 => k0.to_uppercase(),
+                            2 => k0.to_lowercase(),
+                            _ => k0.rsplit("::").next().unwrap_or("").to_string(),
+                        };
+                        o.insert(k1, v0);
+                    } else if o.is_empty() || rng.chance(1, 2) {
                         o.insert("extra_key_q".into(), Value::from(1));
                     } else {
                         let k0 = o.keys().next().cloned().unwrap();
